@@ -33,6 +33,7 @@ type Interp struct {
 	undecided []string
 	maxDepth int
 	hook     *workCollector
+	dispatchSw *ast.SwitchStmt
 	constCache map[ast.Expr]Val
 	tableID  map[string]int
 	cls      *byteClasses
@@ -405,7 +406,12 @@ func (in *Interp) stackAssign(lhs, rhs ast.Expr, st *State) ([]*State, bool) {
 			for _, e := range in.eval(r.Args[1], st) {
 				v := e.v
 				if v.FromB {
-					in.cls.request("identity", 0, "input byte pushed on container stack "+f)
+					if bv, ok := v.isInt(); ok && bv >= 0 && bv < 256 {
+						in.cls.request("eq", int(bv), "")
+						v.FromB = false
+					} else {
+						in.cls.request("identity", 0, "value derived from an input byte pushed on container stack "+f)
+					}
 				}
 				if v.K != kConst {
 					nn := v.NonNeg || v.K == kLen
@@ -544,7 +550,13 @@ func (in *Interp) assignTo(lhs ast.Expr, v Val, st *State, pos token.Pos) []*Sta
 		}
 		if in.tracked[f] {
 			if v.FromB {
-				in.cls.request("identity", 0, "input byte stored in field "+f)
+				// the stored byte becomes part of the control state: its class must be a singleton
+				if bv, ok := v.isInt(); ok && bv >= 0 && bv < 256 {
+					in.cls.request("eq", int(bv), "")
+					v.FromB = false
+				} else {
+					in.cls.request("identity", 0, "value derived from an input byte stored in field "+f)
+				}
 			}
 			st.fields[f] = in.widen(v)
 		}
@@ -716,7 +728,9 @@ func (in *Interp) execSwitch(s *ast.SwitchStmt, st *State) []Exit {
 				if deflt != nil {
 					finish(in.execList(deflt.Body, tv.st))
 				} else {
-					tv.st.notes = append(tv.st.notes, "no-case:"+tv.v.String())
+					if s == in.dispatchSw {
+						tv.st.notes = append(tv.st.notes, "no-case:"+tv.v.String())
+					}
 					out = append(out, Exit{st: tv.st})
 				}
 			}
@@ -943,13 +957,14 @@ func (in *Interp) execScan(s *ast.RangeStmt, st *State, bv Val) []Exit {
 		return nil
 	}
 	base := bv.A
-	if base < 1 {
-		in.undecide(s.Pos(), "scan starts at or before the dispatched byte")
+	if base < 0 {
+		in.undecide(s.Pos(), "scan starts before the dispatched byte")
 		return nil
 	}
 	var out []Exit
-	// Outcome E: empty range, loop variables untouched.
-	if st.remLo <= base-1 {
+	// Outcome E: empty range, loop variables untouched (impossible when the
+	// scan starts at the dispatched byte itself).
+	if base >= 1 && st.remLo <= base-1 {
 		e := st.clone()
 		e.remHi = base - 1
 		if e.remLo > e.remHi {
@@ -1041,6 +1056,9 @@ func (in *Interp) execScan(s *ast.RangeStmt, st *State, bv Val) []Exit {
 			continue
 		}
 		kb, hasKnown := st.known[base]
+		if base == 0 {
+			kb, hasKnown = st.cur, true
+		}
 		if kpos && hasKnown && !pass[kb] {
 			continue
 		}
